@@ -9,6 +9,7 @@ import (
 	_ "verifharness/comp/codec"
 	_ "verifharness/comp/conc"
 	_ "verifharness/comp/csync"
+	_ "verifharness/comp/keyed"
 	_ "verifharness/comp/lifo"
 	_ "verifharness/comp/linkedlist"
 	_ "verifharness/comp/refcount"
